@@ -185,6 +185,18 @@ def iteration(ctx, tk):
                     else:
                         ok = False
         ctx.decide("C01.c", f, what, ok, "slice bounds are not (start, start+length) of the zipped geometry", node=n.ast, engine="E5")
+        # KB: np.split(x, cuts) / np.array_split return len(cuts) + 1 pieces.  Cut lists of the form geometry[1:] /
+        # geometry[:-1] have max(n_rows - 1, 0) entries: for an array without rows that is 0 cuts and ONE (phantom) piece
+        for x in walk(tm):
+            if np_call_(x, {"split", "array_split"}) and len(x.a[1]) >= 2:
+                cuts = x.a[1][1]
+                trimmed = all(a.k == "sub" and a.a[1].k == "slice" and (is_const(a.a[1].a[0], 1) or (a.a[1].a[1].k == "un" or is_const(a.a[1].a[1], -1)))
+                              and any(y.k == "attr" and y.a[1] in ("starts", "ends", "lengths") for y in walk(a.a[0])) for a in alts(cuts))
+                from ..guards import facts_at as _facts
+                guarded = any(t.k == "cmp" and any(call_name(y) == "len" or (y.k == "attr" and y.a[1] in ("n_rows",)) for y in walk(t) if y.k in ("call", "attr")) for t, _tr, _ in _facts(fa, n))
+                ctx.decide("C01.c", f, "iteration yields exactly one item per row, also for an array without rows", (False if not guarded else None) if trimmed else None,
+                           "`%s`: a cut list taken from the geometry minus one end has no entry for an array without rows, and np.split then returns one (empty) piece: "
+                           "list(ra) has one phantom row while len(ra) == 0" % (x,), node=n.ast, key="pieces", engine="KB")
 
 
 def _w(t, e0, e1):
